@@ -399,6 +399,23 @@ class Inliner:
                     st2.orelse = rest
                     out.append(st2)
                     return out, True
+                if isinstance(st, ast.Try) and has_return([st]) and not st.finalbody and not st.orelse and \
+                        k == len(stmts) - 1 and isinstance(result, ast.Name) and mode == 'assign':
+                    # `try: return E / except X: raise Y`: the assignment of a plain name raises nothing of its own, so
+                    # `try: T = E / except X: raise Y` is the same computation
+                    b, r = tr(list(st.body))
+                    hs = []
+                    ok_ = r
+                    for h_ in st.handlers:
+                        hb, hr = tr(list(h_.body))
+                        ok_ = ok_ and hr
+                        h2 = copy.copy(h_)
+                        h2.body = hb or [ast.Pass()]
+                        hs.append(h2)
+                    if not ok_:
+                        raise CannotInline('a try statement that does not leave on every path')
+                    out.append(ast.Try(body=b, handlers=hs, orelse=[], finalbody=[]))
+                    return out, True
                 if isinstance(st, (ast.For, ast.While, ast.Try, ast.With)) and has_return([st]):
                     raise CannotInline('return inside a loop / try / with')
                 out.append(st)
@@ -664,7 +681,106 @@ class _BetaArgs(ast.NodeTransformer):
                 vals += v.values
             else:
                 vals.append(v)
-        n.values = vals
+        # a decided operand: `False and x` is False, `True and x` is x   (or: dually) -- only boolean constants, so
+        # the value of the expression (not just its truth) is unchanged wherever it is used as a test
+        is_and = isinstance(n.op, ast.And)
+        kept = []
+        for i, v in enumerate(vals):
+            if isinstance(v, ast.Constant) and isinstance(v.value, bool):
+                if v.value is (not is_and):      # False in and / True in or: decides, later operands never run
+                    kept.append(v)
+                    break
+                if i < len(vals) - 1:
+                    continue                     # True in and / False in or, not last: skipped
+            kept.append(v)
+        if len(kept) == 1:
+            return kept[0]
+        n.values = kept
+        return n
+
+    def visit_Compare(self, n):
+        n = self.generic_visit(n)
+        # <constant> is [not] None / <constant> ==/!= <constant>   (left behind by substituting a table row)
+        if len(n.ops) == 1 and isinstance(n.left, ast.Constant) and isinstance(n.comparators[0], ast.Constant):
+            a, b = n.left.value, n.comparators[0].value
+            op = n.ops[0]
+            simple = lambda v: v is None or isinstance(v, (str, bool, int))
+            if simple(a) and simple(b):
+                if isinstance(op, (ast.Is, ast.IsNot)) and (a is None or b is None):
+                    r = (a is None) == (b is None)
+                    return ast.copy_location(ast.Constant(value=r if isinstance(op, ast.Is) else not r), n)
+                if isinstance(op, (ast.Eq, ast.NotEq)) and type(a) is type(b):
+                    r = a == b
+                    return ast.copy_location(ast.Constant(value=r if isinstance(op, ast.Eq) else not r), n)
+        return n
+
+    @staticmethod
+    def _as_test(e) -> Optional[ast.AST]:
+        """the test that stands for a boolean-valued expression used as a key (None: not known to be a bool)"""
+        if isinstance(e, ast.Compare):
+            return e
+        if isinstance(e, ast.Constant) and isinstance(e.value, bool):
+            return e
+        if isinstance(e, ast.UnaryOp) and isinstance(e.op, ast.Not):
+            return e
+        if isinstance(e, ast.BoolOp) and all(_BetaArgs._as_test(v) is not None for v in e.values):
+            return e
+        if isinstance(e, ast.Call) and isinstance(e.func, ast.Name) and e.func.id == 'bool' and len(e.args) == 1 and \
+                not e.keywords:
+            return e.args[0]
+        return None
+
+    def visit_Subscript(self, n):
+        n = self.generic_visit(n)
+        # {True: A, False: B}[c]  is  A if c else B ;  {(False, True): f, ..}[(c1, c2)]  is the nested conditional
+        d = n.value
+        # (A if c else B)[k]  is  A[k] if c else B[k]   (k a plain name / constant / attribute: reading it twice is the same)
+        if isinstance(n.ctx, ast.Load) and isinstance(d, ast.IfExp) and _pure_simple(n.slice):
+            mk = lambda v: ast.Subscript(value=v, slice=copy.deepcopy(n.slice), ctx=ast.Load())
+            return ast.copy_location(self.visit(ast.IfExp(test=d.test, body=mk(d.body), orelse=mk(d.orelse))), n)
+        if not (isinstance(n.ctx, ast.Load) and isinstance(d, ast.Dict) and d.keys and all(k is not None for k in d.keys)):
+            return n
+        conds = list(n.slice.elts) if isinstance(n.slice, ast.Tuple) else [n.slice]
+        tests = [self._as_test(c) for c in conds]
+        if any(t is None for t in tests):
+            return n
+        table = {}
+        for k, v in zip(d.keys, d.values):
+            if isinstance(n.slice, ast.Tuple):
+                if not (isinstance(k, ast.Tuple) and len(k.elts) == len(conds) and all(
+                        isinstance(x, ast.Constant) and isinstance(x.value, bool) for x in k.elts)):
+                    return n
+                key = tuple(x.value for x in k.elts)
+            else:
+                if not (isinstance(k, ast.Constant) and isinstance(k.value, bool)):
+                    return n
+                key = (k.value,)
+            if key in table:
+                return n
+            table[key] = v
+        if len(table) != 2 ** len(conds):
+            return n
+
+        def pick(prefix):
+            if len(prefix) == len(conds):
+                return copy.deepcopy(table[tuple(prefix)])
+            a, b = pick(prefix + [True]), pick(prefix + [False])
+            if ast.dump(a) == ast.dump(b):
+                return a
+            return ast.IfExp(test=copy.deepcopy(tests[len(prefix)]), body=a, orelse=b)
+        return ast.copy_location(self.visit(pick([])), n)
+
+    def visit_UnaryOp(self, n):
+        n = self.generic_visit(n)
+        if isinstance(n.op, ast.Not) and isinstance(n.operand, ast.Constant) and isinstance(n.operand.value, bool):
+            return ast.copy_location(ast.Constant(value=not n.operand.value), n)
+        # not (a != b)  is  a == b   (is / in likewise)
+        if isinstance(n.op, ast.Not) and isinstance(n.operand, ast.Compare) and len(n.operand.ops) == 1:
+            inv = {ast.NotEq: ast.Eq, ast.Eq: ast.NotEq, ast.Is: ast.IsNot, ast.IsNot: ast.Is, ast.In: ast.NotIn,
+                   ast.NotIn: ast.In}.get(type(n.operand.ops[0]))
+            if inv is not None:
+                return ast.copy_location(ast.Compare(left=n.operand.left, ops=[inv()],
+                                                     comparators=n.operand.comparators), n)
         return n
 
     def visit_If(self, n):
@@ -708,6 +824,20 @@ class _BetaArgs(ast.NodeTransformer):
                 if len(vals) == 1:
                     return ast.copy_location(ast.Call(func=ast.Name(id='bool', ctx=ast.Load()), args=vals, keywords=[]), n)
                 return ast.copy_location(ast.BoolOp(op=ast.And() if f.id == 'all' else ast.Or(), values=vals), n)
+        # operator.methodcaller('name', *a)(obj) is obj.name(*a) ; attrgetter('name')(obj) is obj.name ; itemgetter(k)(obj)
+        # is obj[k]
+        if isinstance(f, ast.Call) and len(n.args) == 1 and not n.keywords and \
+                not isinstance(n.args[0], ast.Starred) and f.args and isinstance(f.args[0], ast.Constant):
+            fname = f.func.id if isinstance(f.func, ast.Name) else f.func.attr if isinstance(f.func, ast.Attribute) and \
+                isinstance(f.func.value, ast.Name) and f.func.value.id == 'operator' else None
+            k = f.args[0].value
+            if fname == 'methodcaller' and isinstance(k, str) and k.isidentifier():
+                return ast.copy_location(ast.Call(func=ast.Attribute(value=n.args[0], attr=k, ctx=ast.Load()),
+                                                  args=f.args[1:], keywords=f.keywords), n)
+            if fname == 'attrgetter' and isinstance(k, str) and k.isidentifier() and len(f.args) == 1 and not f.keywords:
+                return ast.copy_location(ast.Attribute(value=n.args[0], attr=k, ctx=ast.Load()), n)
+            if fname == 'itemgetter' and len(f.args) == 1 and not f.keywords:
+                return ast.copy_location(ast.Subscript(value=n.args[0], slice=f.args[0], ctx=ast.Load()), n)
         # getattr(obj, 'name')  is  obj.name
         if isinstance(f, ast.Name) and f.id == 'getattr' and len(n.args) == 2 and not n.keywords and \
                 isinstance(n.args[1], ast.Constant) and isinstance(n.args[1].value, str) and n.args[1].value.isidentifier():
@@ -1224,6 +1354,118 @@ def scalarise_records(fn: ast.FunctionDef, records) -> bool:
     return True
 
 
+_BROAD_EXC = {'Exception', 'BaseException', 'TypeError', 'ArithmeticError', 'OverflowError'}
+
+
+def tidy_blocks(fn: ast.FunctionDef) -> bool:
+    """two shapes that reading a helper through leaves behind:
+
+        if C: T = K                              T = K
+        else: ...; V = K; ...; T = V      ==>    if not C: ... (V spelled T, V = K dropped) ...
+      (K the same constant; V only ever augmented / read inside that arm and nowhere else)
+
+        try: ...; V = E                          try: ...; X op= E
+        except X1: raise ..               ==>    except X1: raise ..
+        X op= V          (V's only use)
+      (handlers name specific exception types, none that `X op= V` on numbers / containers could raise itself)"""
+    changed = [False]
+
+    def loads(name):
+        return sum(1 for x in ast.walk(fn) if isinstance(x, ast.Name) and x.id == name and isinstance(x.ctx, ast.Load))
+
+    def stores_in(nodes, name):
+        return [x for n_ in nodes for x in ast.walk(n_) if isinstance(x, (ast.Assign, ast.AugAssign, ast.AnnAssign, ast.For,
+                                                                           ast.NamedExpr, ast.With, ast.comprehension))
+                for t in ([x.target] if hasattr(x, 'target') else getattr(x, 'targets', []))
+                for y in ast.walk(t) if isinstance(y, ast.Name) and y.id == name]
+
+    def const_assign(st, name=None):
+        return isinstance(st, ast.Assign) and len(st.targets) == 1 and isinstance(st.targets[0], ast.Name) and \
+            isinstance(st.value, ast.Constant) and (name is None or st.targets[0].id == name)
+
+    def branch_init(st: ast.If) -> Optional[List[ast.stmt]]:
+        for simple, other, negate in ((st.body, st.orelse, True), (st.orelse, st.body, False)):
+            if len(simple) != 1 or not const_assign(simple[0]) or len(other) < 2:
+                continue
+            T, K = simple[0].targets[0].id, simple[0].value
+            last = other[-1]
+            if not (isinstance(last, ast.Assign) and len(last.targets) == 1 and isinstance(last.targets[0], ast.Name) and
+                    last.targets[0].id == T and isinstance(last.value, ast.Name)):
+                continue
+            V = last.value.id
+            inits = [x for x in other[:-1] if const_assign(x, V)]
+            if len(inits) != 1 or ast.dump(inits[0].value) != ast.dump(K) or type(inits[0].value.value) is not type(K.value):
+                continue
+            # V lives only inside this arm; apart from its initialisation it is only augmented
+            inside = sum(1 for n_ in other for x in ast.walk(n_) if isinstance(x, ast.Name) and x.id == V)
+            total = sum(1 for x in ast.walk(fn) if isinstance(x, ast.Name) and x.id == V)
+            if inside != total:
+                continue
+            plain = [x for x in stores_in(other[:-1], V) if not isinstance(x, ast.AugAssign)]
+            if len(plain) != 1 or plain[0] is not inits[0]:
+                continue
+            if any(isinstance(x, ast.Name) and x.id == T for n_ in other[:-1] for x in ast.walk(n_)):
+                continue
+            if any(isinstance(x, ast.Name) and x.id == T for x in ast.walk(st.test)):
+                continue
+            # the initialisation must come before anything in the arm that can leave it half-way: keep it simple --
+            # it is hoisted in front of the `if`, so the arm must not read T/V before it (checked above)
+            body = [_Rename({V: T}, {}).visit(copy.deepcopy(x)) for x in other[:-1] if x is not inits[0]]
+            test = ast.UnaryOp(op=ast.Not(), operand=st.test) if negate else st.test
+            if negate and isinstance(st.test, ast.UnaryOp) and isinstance(st.test.op, ast.Not):
+                test = st.test.operand
+            return [ast.copy_location(ast.Assign(targets=[ast.Name(id=T, ctx=ast.Store())], value=K), st),
+                    ast.copy_location(ast.If(test=test, body=body or [ast.Pass()], orelse=[]), st)]
+        return None
+
+    def block(stmts: List[ast.stmt]) -> List[ast.stmt]:
+        out: List[ast.stmt] = []
+        i = 0
+        while i < len(stmts):
+            st = stmts[i]
+            for fld in ('body', 'orelse', 'finalbody'):
+                sub = getattr(st, fld, None)
+                if isinstance(sub, list) and sub and isinstance(sub[0], ast.stmt):
+                    setattr(st, fld, block(sub))
+            for h in getattr(st, 'handlers', []) or []:
+                h.body = block(h.body)
+            if isinstance(st, ast.If):
+                r = branch_init(st)
+                if r is not None:
+                    changed[0] = True
+                    out += r
+                    i += 1
+                    continue
+            nxt = stmts[i + 1] if i + 1 < len(stmts) else None
+            if isinstance(st, ast.Try) and not st.orelse and not st.finalbody and st.body and st.handlers and \
+                    isinstance(st.body[-1], ast.Assign) and len(st.body[-1].targets) == 1 and \
+                    isinstance(st.body[-1].targets[0], ast.Name) and nxt is not None and \
+                    isinstance(nxt, (ast.AugAssign, ast.Assign)) and isinstance(nxt.value, ast.Name) and \
+                    nxt.value.id == st.body[-1].targets[0].id:
+                V = nxt.value.id
+                tgt = nxt.target if isinstance(nxt, ast.AugAssign) else nxt.targets[0]
+                specific = all(h.type is not None and all(
+                    isinstance(t, ast.Name) and t.id not in _BROAD_EXC
+                    for t in (h.type.elts if isinstance(h.type, ast.Tuple) else [h.type])) and h.body and
+                    isinstance(h.body[-1], ast.Raise) for h in st.handlers)
+                if specific and isinstance(tgt, ast.Name) and tgt.id != V and loads(V) == 1 and \
+                        len(stores_in([fn], V)) == 1:
+                    moved = copy.copy(nxt)
+                    moved.value = st.body[-1].value
+                    st.body = st.body[:-1] + [ast.copy_location(moved, st.body[-1])]
+                    changed[0] = True
+                    out.append(st)
+                    i += 2
+                    continue
+            out.append(st)
+            i += 1
+        return out
+    fn.body = block(fn.body)
+    if changed[0]:
+        ast.fix_missing_locations(fn)
+    return changed[0]
+
+
 def propagate_callable_locals(fn: ast.FunctionDef, helper_names) -> bool:
     """`build = f if c else g` ... `build(x)`  ==>  `(f if c else g)(x)` for the calls that follow in the same block
     before `build` is bound again (f, g: helper functions -- function values are pure, so reading them again is the same)"""
@@ -1583,7 +1825,7 @@ def normalise_module(tree: ast.Module, modname: str) -> Dict[str, List[str]]:
                 if isinstance(tgt, ast.Name) and isinstance(getattr(b_, 'value', None), (ast.Tuple, ast.List, ast.Dict, ast.Set)) \
                         and f'{c_.name}.{tgt.id}' not in known_cc:
                     class_consts.setdefault(c_.name, {})[tgt.id] = b_.value
-    for _pass in range(4):
+    for _pass in range(6):
         any_change = False
         for q in sorted(changed):
             fn, cls = funcs[q]
@@ -1658,12 +1900,45 @@ def normalise_module(tree: ast.Module, modname: str) -> Dict[str, List[str]]:
                 if fuse_staging_lists(fn):
                     any_change = True
                     record.setdefault(q, []).append('staging list fused')
+                if tidy_blocks(fn):
+                    any_change = True
+                    record.setdefault(q, []).append('branch initialisation / try temporary fused')
+                before_ = ast.dump(fn)
                 fn2 = _BetaArgs().visit(fn)
                 ast.fix_missing_locations(fn2)
+                if ast.dump(fn) != before_:
+                    any_change = True
             except Exception as e:  # a normalisation that fails leaves the function as it is
                 record.setdefault(q, []).append(f'normalisation skipped: {type(e).__name__}: {e}')
         if not any_change:
             break
+    # helpers that were read through at every place they are used: private, new, and no reference to their name is left
+    # anywhere in the module outside helpers of the same kind.  Their code is analysed where it runs (in the callers);
+    # scanning the helper by itself again would judge a fragment without its context.
+    cand = {q: h for q, h in helpers.items() if h.name.startswith('_')}
+    absorbed = set(cand)
+    while True:
+        refs: Dict[str, int] = {}
+        skip = {id(cand[q].node) for q in absorbed}
+
+        def count(node):
+            if id(node) in skip:
+                return
+            if isinstance(node, ast.Name) and isinstance(node.ctx, ast.Load):
+                refs[node.id] = refs.get(node.id, 0) + 1
+            elif isinstance(node, ast.Attribute):
+                refs[node.attr] = refs.get(node.attr, 0) + 1
+            elif isinstance(node, ast.Constant) and isinstance(node.value, str) and node.value.isidentifier():
+                refs[node.value] = refs.get(node.value, 0) + 1      # getattr(x, 'name') and the like
+            for ch in ast.iter_child_nodes(node):
+                count(ch)
+        count(tree)
+        drop = {q for q in absorbed if refs.get(cand[q].name)}
+        if not drop:
+            break
+        absorbed -= drop
+    if absorbed:
+        record['__absorbed__'] = sorted(absorbed)
     return record
 
 
